@@ -3,7 +3,7 @@
      tree_to_nested_dict (1106-1160)
    and of the matching constructors of bigtree/tree/construct.py
      add_path_to_tree (48-128), dict_to_tree (762-849), nested_dict_to_tree (852-927),
-     dataframe_to_tree (930-1035), polars_to_tree (1166-1272).
+     dataframe_to_tree (930-1038), polars_to_tree (1169-1275).
    No proofs in this file.
 
    Python values
@@ -314,8 +314,8 @@ Fixpoint nested_dict_to_tree (name_key : str) (d : tree) : res tree :=
       end
   end.
 
-(* dataframe_to_tree / polars_to_tree with path_col="" and attribute_cols=[] (construct.py:990-1035,
-   1226-1272): first column = paths, the other columns = attributes; paths stripped; rows with the
+(* dataframe_to_tree / polars_to_tree with path_col="" and attribute_cols=[] (construct.py:990-1038,
+   1229-1275): first column = paths, the other columns = attributes; paths stripped; rows with the
    same path and different attributes are refused; null cells are not set *)
 Definition row_attrs (path_col : str) (r : record) : record :=
   filter (fun kv => negb (is_null (snd kv)) && negb (str_eqb (fst kv) s_name)
@@ -366,6 +366,93 @@ Definition dataframe_to_tree (rows : list record) (sep : str) : res tree :=
 Definition polars_to_tree := dataframe_to_tree.
 
 (* ------------------------------------------------------------------------------------------ *)
+(* duplicate_name_allowed=False (construct.py:107-121): every component below the root is looked up
+   by NAME in the whole tree (search.find_name: pre-order, SearchError on two hits); a hit whose path
+   differs from the path being added raises DuplicatedNodeError; no hit creates the node below the
+   previous component.  tree_sep is the separator of the tree under construction: `sep` in
+   dict_to_tree, still the default "/" in dataframe_to_tree / polars_to_tree (set at the end). *)
+Definition named_paths (n : str) (t : tree) : list (list str) :=
+  filter (fun p => match rev p with x :: _ => str_eqb x n | [] => false end) (paths t).
+
+Fixpoint grow_nodup (tree_sep : str) (pref rest : list str) (t : tree) : res tree :=
+  match rest with
+  | [] => Ret t
+  | n :: rest' =>
+      let here := pref ++ [n] in
+      match named_paths n t with
+      | _ :: _ :: _ => Raise SearchError
+      | [p] => if str_eqb (path_name tree_sep p) (path_name tree_sep here)
+               then grow_nodup tree_sep here rest' t else Raise DuplicatedNodeError
+      | [] => grow_nodup tree_sep here rest' (add_branch (tl here) [] t)
+      end
+  end.
+
+Definition add_path_to_tree_nd (tree_sep : str) (t : tree) (path sep : str) (na : record) : res tree :=
+  if is_empty path then Raise ValueError else
+  match branch_of path sep with
+  | [] => Raise TreeError
+  | b0 :: rest =>
+      if negb (str_eqb b0 (tname t)) then Raise TreeError
+      else if existsb is_empty rest then Raise TreeError
+      else match grow_nodup tree_sep [b0] rest t with
+           | Ret t' => Ret (add_branch rest na t')
+           | Raise e => Raise e
+           end
+  end.
+
+Fixpoint add_paths_nd (tree_sep sep : str) (items : list (str * record)) (t : tree) : res tree :=
+  match items with
+  | [] => Ret t
+  | (p, a) :: r => match add_path_to_tree_nd tree_sep t p sep a with
+                   | Ret t' => add_paths_nd tree_sep sep r t'
+                   | Raise e => Raise e
+                   end
+  end.
+
+Definition dict_to_tree_nd (d : list (str * record)) (sep : str) : res tree :=
+  match d with
+  | [] => Raise ValueError
+  | (p0, _) :: _ =>
+      let root_name := hd [] (branch_of p0 sep) in
+      let root_attrs :=
+        get_or root_name d (get_or (sep ++ root_name) d
+          (get_or (root_name ++ sep) d (get_or (sep ++ root_name ++ sep) d []))) in
+      if is_empty root_name then Raise TreeError else
+      add_paths_nd sep sep (map (fun pa => (fst pa, dict_del s_name (snd pa))) d)
+                   (T None root_name (dict_del s_name root_attrs) [])
+  end.
+
+Definition s_slash : str := [47]%N.
+
+Definition dataframe_to_tree_nd (rows : list record) (sep : str) : res tree :=
+  match rows with
+  | [] => Raise ValueError
+  | [] :: _ => Raise ValueError
+  | ((path_col, _) :: _) :: _ =>
+      let stripped :=
+        map (fun r => (match dict_get path_col r with
+                       | Some (VStr p) => strip_path p sep
+                       | _ => []
+                       end, dict_del path_col r)) rows in
+      if existsb (fun r => match dict_get path_col r with Some (VStr _) => false | _ => true end) rows
+      then Raise Unmodelled else
+      if dup_conflict stripped then Raise ValueError else
+      match stripped with
+      | [] => Raise ValueError
+      | (p0, _) :: _ =>
+          let root_name := hd [] (split p0 sep) in
+          let root_attrs :=
+            match filter (fun pa => str_eqb (fst pa) root_name) stripped with
+            | (_, a) :: _ => row_attrs path_col a
+            | [] => []
+            end in
+          if is_empty root_name then Raise TreeError else
+          add_paths_nd s_slash sep (map (fun pa => (fst pa, row_attrs path_col (snd pa))) stripped)
+                       (T None root_name root_attrs [])
+      end
+  end.
+
+(* ------------------------------------------------------------------------------------------ *)
 (* The round trips observed by the harness: full export of the whole tree (all_attrs=True, default
    keys) fed to the matching constructor with the tree's separator *)
 
@@ -382,3 +469,13 @@ Definition rt_nested (t : tree) : res tree :=
   bind (tree_to_nested_dict t [] full_opts) (nested_dict_to_tree s_name).
 Definition rt_frame (t : tree) (sep : str) : res tree :=
   bind (tree_to_dataframe t sep [] full_opts) (fun d => dataframe_to_tree d sep).
+
+(* the variants the harness also runs: nested round trip with a caller-chosen name key, path round
+   trips with duplicate_name_allowed=False *)
+Definition full_opts_named (nk : str) : opts := Opts nk [] s_path [] true 0 0 false.
+Definition rt_nested_with (nk : str) (t : tree) : res tree :=
+  bind (tree_to_nested_dict t [] (full_opts_named nk)) (nested_dict_to_tree nk).
+Definition rt_dict_nd (t : tree) (sep : str) : res tree :=
+  bind (tree_to_dict t sep [] full_opts) (fun d => dict_to_tree_nd d sep).
+Definition rt_frame_nd (t : tree) (sep : str) : res tree :=
+  bind (tree_to_dataframe t sep [] full_opts) (fun d => dataframe_to_tree_nd d sep).
